@@ -85,6 +85,10 @@ def eval_cases(prop, stream, cases):
         fields = fmap[cid]
         if im == "SKIPPED":
             continue    # the harness stopped evaluating this shard after several hangs/aborts (reported on their own cases)
+        if im == "MISSING" or m == "MISSING":
+            # a side produced no record at all for this case: never "equal", whatever the property's same() says
+            fails.append((cid, fields, "correspondence", "no record from the " + ("implementation" if im == "MISSING" else "model"), m, im))
+            continue
         why = prop.oracle(stream, fields, im)
         if not why and m != im and stream in getattr(prop, "spec_streams", ()):
             # the model side of this stream is the specification (a theorem's right-hand side)
@@ -184,7 +188,7 @@ def run_check(prop, tier):
         log(rlog[-3000:])
     if not hok:
         log(hlog[-3000:])
-    total = 0; nontriv_all = set(); samples = []; per_stream = {}; diffs = 0
+    total = 0; nontriv_all = set(); samples = []; per_stream = {}; diffs = 0; compared = 0
     all_fails = []
     if rok and hok:
         search_tier = tier if proof_ok else "thorough" if tier == "thorough" else "search"
@@ -192,6 +196,8 @@ def run_check(prop, tier):
             if not cases: continue
             res, fails, nontriv = eval_cases(prop, stream, cases)
             total += len(cases); nontriv_all |= nontriv
+            # cases on which BOTH the extracted model and the implementation produced a record that was compared
+            compared += sum(1 for (m_, im_) in res.values() if im_ not in ("SKIPPED", "MISSING") and m_ != "MISSING")
             per_stream[stream] = per_stream.get(stream, 0) + len(cases)
             for c in cases[:2] + cases[len(cases)//2:len(cases)//2+1]:
                 if len(samples) < 12:
@@ -203,7 +209,9 @@ def run_check(prop, tier):
     if sus:
         sus.sort(key=lambda f: sum(len(x) for x in f[2]))
         keep = []; confirmed_any = False
-        for (stream, cid, fields, kind, why, m, im) in sus[:4]:
+        # the four shortest and the two longest (a super-linear hang shows on the longest inputs)
+        probe = sus[:4] + [f for f in sus[-2:] if f not in sus[:4]]
+        for (stream, cid, fields, kind, why, m, im) in probe:
             r2 = core.run_stream(prop.id + "-confirm", stream, [("c", fields)], case_ms=prop.case_ms * 5)
             m2, im2 = r2["c"]
             why2 = prop.oracle(stream, fields, im2)
@@ -212,7 +220,7 @@ def run_check(prop, tier):
             elif not prop.same(stream, m2, im2):
                 keep.append((stream, cid, fields, "correspondence", "model and implementation differ", m2, im2)); confirmed_any = True
         if confirmed_any:
-            keep += sus[4:]
+            keep += [f for f in sus if f not in probe]
         log(f"[{prop.id}] {len(sus)} case(s) hit the time budget; re-run alone with 5x budget: {len(keep)} still fail")
         susids = {(f[0], f[1]) for f in sus}
         all_fails = [f for f in all_fails if (f[0], f[1]) not in susids] + keep
@@ -283,7 +291,7 @@ def run_check(prop, tier):
         "trusted_base": prop.trusted,
         "theorems": pinfo.get("theorems", []), "axioms_reported": pinfo.get("axioms", []),
         "evaluations": max(1, total), "distinct_nontrivial": len(nontriv_all),
-        "traces_validated_against_impl": total,
+        "traces_validated_against_impl": compared,
         "rule": getattr(prop, "rule", ""), "samples": samples or [{"note": "no cases run"}],
         "per_stream": per_stream, "known_finding_classes_hit": sorted(known_hits),
         "proof_ok": proof_ok, "exhaustive": False, "coqchk": pinfo.get("coqchk", "not run in this tier (thorough only)"),
